@@ -1,11 +1,79 @@
-"""Spec vocabulary of record mode (see records.py).  Symbolically these are engine built-ins; natively
-they have no general meaning (`old` needs the entry snapshot), so record-mode contracts are not replayed
-natively: a refuted obligation is reported with the solver's counter-model and `no-failing-input-found`
-unless the sidecar supplies its own native reproduction."""
+"""Spec vocabulary of record mode (see records.py).  Symbolically these are engine built-ins.  Natively (replay of a
+counter-model on the real objects) `old(x)` answers from the snapshot the replay driver took before the call; ghost
+counters / ghost objects have no native meaning (contracts that use them are not replayed)."""
+import types
+
+_OLD = {}
 
 
-def _native(*a, **k):
-    raise NotImplementedError('record-mode spec helper has no native meaning')
+class NotNative(Exception):
+    pass
 
 
-ghost_obj = old = ghost = old_ghost = is_member = set_empty = set_subset = same_set = set_is_added = same_obj = has_field = _native
+def snapshot(objs):
+    """structural copies of the mutable records reachable from objs; members of sets stay the same objects"""
+    _OLD.clear()
+    memo = {}
+
+    def copy(x):
+        if id(x) in memo:
+            return memo[id(x)]
+        if isinstance(x, (set, frozenset)):
+            c = set(x)
+        elif isinstance(x, dict):
+            c = {k: copy(v) for k, v in x.items()}
+        elif isinstance(x, list):
+            c = [copy(v) for v in x]
+        elif isinstance(x, types.SimpleNamespace) or (hasattr(x, '__dict__') and not isinstance(x, type)
+                                                    and type(x).__module__.startswith('pycel')):
+            c = types.SimpleNamespace()
+            memo[id(x)] = c
+            for k, v in vars(x).items():
+                setattr(c, k, copy(v))
+            return c
+        else:
+            return x
+        memo[id(x)] = c
+        return c
+    for o in objs:
+        copy(o)
+    _OLD.update(memo)
+
+
+def old(x):
+    return _OLD.get(id(x), x)
+
+
+def ghost(name):
+    raise NotNative('ghost counter')
+
+
+old_ghost = ghost_obj = ghost
+
+
+def is_member(s, x):
+    return any(x is y for y in s)
+
+
+def set_empty(s):
+    return len(s) == 0
+
+
+def set_subset(a, b):
+    return all(is_member(b, x) for x in a)
+
+
+def same_set(a, b):
+    return set_subset(a, b) and set_subset(b, a)
+
+
+def set_is_added(new, old_, x):
+    return is_member(new, x) and set_subset(old_, new) and all(y is x or is_member(old_, y) for y in new)
+
+
+def same_obj(a, b):
+    return a is b
+
+
+def has_field(o, name):
+    return hasattr(o, name)
